@@ -12,7 +12,7 @@
     fuel), run on the encoded table over the default scopes, returns success, and the sorted namespace view of the
     resulting tree (Aml/View.v) IS the namespace [ns] the specification assigns to the program (Aml/Grammar.v). *)
 From Coq Require Import NArith List.
-From FF Require Import Aml.Grammar Aml.WfProgram Aml.ParserFragF0Final Aml.ParserFragF1Final.
+From FF Require Import Aml.Grammar Aml.WfProgram Aml.ParserFragF0Final Aml.ParserFragF1Final Aml.ParserFragF3Final.
 Import ListNotations.
 Local Open Scope N_scope.
 
@@ -47,3 +47,19 @@ Theorem C11_parse_encode_partial_F2 : forall tables,
   wf_program tables = true -> in_fragment_F2 tables = true -> parse_encode_statement tables.
 Proof. exact parse_encode_F2. Qed.
 Print Assumptions C11_parse_encode_partial_F2.
+
+(** Fragment F3 ([in_fragment_F3], a boolean) = F2 + Scope directives over the predefined scopes: ONE table; every
+    top-level item is an item of F2 or [Scope(\SEG){ items of F2 }] / [Scope(SEG){ items of F2 }] where SEG is one of
+    the predefined scopes _GPE, _PR_, _SB_, _SI_, _TZ_ (single NameSeg, with or without the root prefix, not written
+    as a MultiNamePath); any number of directives, the same scope may be opened several times; any admissible
+    PkgLength width; the encoded table is shorter than 2^28 bytes.  Productions added to F2: DefScope (PkgLength,
+    NameString = RootChar NameSeg | NameSeg, TermList of DefName / DefDevice / DefMethod).
+    Not in the fragment: Scope directives below the top level, Scope over a declared object, Scope(\).
+
+    Here mergeScopeDirectives does real work: for every directive the target is found (Find from the root), the
+    contents of the directive's ScopeBlock are moved below the predefined scope, and the directive, its name path
+    and its ScopeBlock are freed; relocateNamedObjects and passes 4-6 then run over a pool with freed slots. *)
+Theorem C11_parse_encode_partial_F3 : forall tables,
+  wf_program tables = true -> in_fragment_F3 tables = true -> parse_encode_statement tables.
+Proof. exact parse_encode_F3. Qed.
+Print Assumptions C11_parse_encode_partial_F3.
